@@ -626,7 +626,7 @@ func runFrame(fr *frame) {
 			if E.hangLimit > 0 && E.steps > E.hangLimit {
 				E.hangLimit = 0
 				E.lastPanicStack = E.stack()
-				E.endPath("hang", "no progress: more than the allowed number of steps without finishing (busy loop) at "+E.where(fr.g))
+				E.endPath("hang", "no progress: more than the allowed number of steps without finishing (busy loop)\n at "+E.where(fr.g))
 			}
 			if E.steps > E.maxSteps {
 				E.inconclusive(fmt.Sprintf("step budget %d exhausted (unwinding assertion)", E.maxSteps))
